@@ -551,6 +551,17 @@ def b_hasattr(eng, o, name):
 
 
 @stub
+def b_next(eng, it, default=MISSING):
+    """next() of a freshly made iterator / generator (generators are evaluated eagerly): its first element"""
+    items = eng.iterate(it)
+    if items:
+        return items[0]
+    if default is not MISSING:
+        return default
+    raise PyRaise(eng.make_exc("StopIteration", ""))
+
+
+@stub
 def b_getattr(eng, o, name, default=MISSING):
     return eng.getattr(o, name, None, default)
 
@@ -649,7 +660,7 @@ def make_builtins():
     b = dict(len=b_len, isinstance=b_isinstance, issubclass=b_issubclass, range=b_range,
              zip=b_zip, enumerate=b_enumerate, reversed=b_reversed, sorted=b_sorted, sum=b_sum,
              any=b_any, all=b_all, min=b_min, max=b_max, abs=b_abs, repr=b_repr,
-             hasattr=b_hasattr, getattr=b_getattr, setattr=b_setattr, id=b_id, print=b_print,
+             hasattr=b_hasattr, next=b_next, getattr=b_getattr, setattr=b_setattr, id=b_id, print=b_print,
              type=b_type, callable=b_callable, iter=b_iter, round=b_round, open=b_open_unsupported,
              filter=b_filter, map=b_map,
              True_=True, NotImplemented=NotImplemented)
